@@ -1,6 +1,8 @@
 package pxform
 
 import (
+	"encoding/json"
+	"fmt"
 	"reflect"
 	"time"
 
@@ -165,7 +167,56 @@ type Node struct {
 	// them, slot by slot
 	NdPair [2]NestA
 	NdTrio [3]Leafy
+	// named text-unmarshalable collections of structs, not behind a pointer
+	NdLinks PeerPair
+	NdPeers PeerList
 }
+
+// Peer is the element struct of the named text-unmarshalable collections
+// below; it does not implement encoding.TextUnmarshaler itself.
+type Peer struct {
+	Host string
+	Port int
+}
+
+// PeerList is a NAMED slice of structs that is a text leaf: UnmarshalText
+// sits on the collection type.  The transformer must not recurse into it.
+type PeerList []Peer
+
+// UnmarshalText implements encoding.TextUnmarshaler (JSON array text).
+func (p *PeerList) UnmarshalText(b []byte) error {
+	var x []Peer
+	if err := json.Unmarshal(b, &x); err != nil {
+		return err
+	}
+	if x == nil {
+		return fmt.Errorf("peer list %q: not a list", b)
+	}
+	*p = x
+	return nil
+}
+
+// MarshalText implements encoding.TextMarshaler.
+func (p PeerList) MarshalText() ([]byte, error) { return json.Marshal([]Peer(p)) }
+
+// PeerPair is a NAMED array of structs that is a text leaf.
+type PeerPair [2]Peer
+
+// UnmarshalText implements encoding.TextUnmarshaler (JSON array text).
+func (p *PeerPair) UnmarshalText(b []byte) error {
+	var x []Peer
+	if err := json.Unmarshal(b, &x); err != nil {
+		return err
+	}
+	if len(x) != 2 {
+		return fmt.Errorf("peer pair %q: want 2 peers", b)
+	}
+	p[0], p[1] = x[0], x[1]
+	return nil
+}
+
+// MarshalText implements encoding.TextMarshaler.
+func (p PeerPair) MarshalText() ([]byte, error) { return json.Marshal(p[:]) }
 
 // Leafy is an array element with a set and a duration.
 type Leafy struct {
@@ -223,6 +274,8 @@ func init() {
 	shape.RegisterBase("EmbPair", reflect.TypeOf(EmbPair{}))
 	shape.RegisterBase("EmbHidden", reflect.TypeOf(EmbHidden{}))
 	shape.RegisterBase("Node", reflect.TypeOf(Node{}))
+	shape.RegisterBase("PeerList", reflect.TypeOf(PeerList(nil)))
+	shape.RegisterBase("PeerPair", reflect.TypeOf(PeerPair{}))
 	shape.RegisterBase("Label", reflect.TypeOf(Label("")))
 	shape.RegisterBase("IntSet", reflect.TypeOf(map[int]struct{}{}))
 	shape.RegisterBase("EmbCommon", reflect.TypeOf(EmbCommon{}))
@@ -269,6 +322,7 @@ var staticWords = map[string][]string{
 	"EmbBase": {"emb", "base"}, "EmbCommon": {"emb", "common"}, "EmbCommonP": {"emb", "common", "p"}, "EmbRoot": {"emb", "root"}, "EmbTop": {"emb", "top"}, "EmbTopP": {"emb", "top", "p"},
 	"BsNum": {"bs", "num"}, "BsText": {"bs", "text"}, "CmFlag": {"cm", "flag"}, "CmList": {"cm", "list"}, "CpNum": {"cp", "num"},
 	"RtEvery": {"rt", "every"}, "RtSet": {"rt", "set"}, "TpRatio": {"tp", "ratio"}, "TpName": {"tp", "name"},
+	"NdLinks": {"nd", "links"}, "NdPeers": {"nd", "peers"}, "Host": {"host"}, "Port": {"port"},
 	"X": {"x"}, "Y": {"y"}, "Vals": {"vals"}, "M": {"m"}, "P": {"p"},
 }
 
